@@ -102,6 +102,61 @@ func init() {
 		hintMap{EC: "M", gozxing.EncodeHintType_QR_VERSION: "2", gozxing.EncodeHintType_QR_MASK_PATTERN: "1", gozxing.EncodeHintType_CHARACTER_SET: "ISO-8859-1"})
 }
 
+// Textured symbols: long runs of equal modules. A payload of zeros (all data bits 0) under a mask
+// that inverts whole rows, or of 0xFF bytes under one that does not, gives rows of more than 128 and
+// columns of more than 128 equal modules in the large versions - a renderer that draws runs instead
+// of single modules counts that far.
+var texturedQR []string
+
+func init() {
+	for _, v := range []int{28, 40} {
+		for mask := 0; mask < 8; mask++ {
+			v, mask := v, mask
+			zeros := fmt.Sprintf("qr+zeros-v%d-mask%d", v, mask)
+			hz := hintMap{gozxing.EncodeHintType_QR_VERSION: v, gozxing.EncodeHintType_QR_MASK_PATTERN: mask}
+			hintedQR[zeros] = func() *symbol {
+				return qrSymbolWith(zeros, strings.Repeat("0", map[int]int{28: 3600, 40: 7089}[v]), qrdec.ErrorCorrectionLevel_L, hz, hz)
+			}
+			ff := fmt.Sprintf("qr+ff-v%d-mask%d", v, mask)
+			hf := hintMap{gozxing.EncodeHintType_QR_VERSION: v, gozxing.EncodeHintType_QR_MASK_PATTERN: mask, gozxing.EncodeHintType_CHARACTER_SET: "ISO-8859-1"}
+			hintedQR[ff] = func() *symbol {
+				return qrSymbolWith(ff, strings.Repeat("\u00ff", map[int]int{28: 1500, 40: 2940}[v]), qrdec.ErrorCorrectionLevel_L, hf, hf)
+			}
+			texturedQR = append(texturedQR, zeros, ff)
+		}
+	}
+}
+
+func runTexturedQR() {
+	var jobs []job
+	longest := 0
+	for _, n := range texturedQR {
+		s := hintedQR[n]()
+		if s == nil {
+			continue
+		}
+		for _, row := range s.mod {
+			run := 0
+			for _, b := range row {
+				if b {
+					run++
+					if run > longest {
+						longest = run
+					}
+				} else {
+					run = 0
+				}
+			}
+		}
+		for _, m := range marginList([]int{0, 4}) {
+			natW, natH := s.natural(m)
+			jobs = append(jobs, job{s, m, []pt{{0, 0}, {natW + 3, natH + 1}, {2*natW + 1, 2 * natH}}})
+		}
+	}
+	chk.Subspace("textured QR symbols", map[string]interface{}{"symbols": len(texturedQR), "longest_dark_run_in_a_row_modules": longest})
+	runJobs("QR versions 28 and 40 with long runs of equal modules (payload of zeros / of 0xFF bytes x every forced mask 0..7) x margins x 3 requested sizes", jobs)
+}
+
 func runHintedQR() {
 	var jobs []job
 	names := []string{"qr+ecH", "qr+ecQstr", "qr+ecLstr", "qr+v3", "qr+mask5", "qr+utf8", "qr+gs1", "qr+all"}
